@@ -1,10 +1,13 @@
 #!/bin/bash
-# evaluate every candidate mutant against the check of its own property
+# evaluate every candidate mutant against the check of its own property; usage: eval_candidates.sh [dir ...]
 HERE=$(cd "$(dirname "$0")/.." && pwd)
 cd $HERE
-for d in seeded/candidates/C*/m* seeded/rebased/C*/m*; do
+DIRS=${@:-seeded/candidates seeded/candidates2}
+for top in $DIRS; do
+for d in $top/C*/m*; do
   [ -f $d/patch.diff ] || continue
   p=$(basename $(dirname $d))
   echo "##### $d"
   tools/try_mutant.sh $d $p 2>&1 | grep -v conda
+done
 done
